@@ -12,6 +12,7 @@ import (
 	"verif/internal/c08"
 	"verif/internal/c11"
 	"verif/internal/c10"
+	"verif/internal/c13"
 	"verif/internal/c15"
 	"verif/internal/c19"
 	"verif/internal/c16"
@@ -28,6 +29,7 @@ var checks = map[string]func(tier, replay string){
 	"C11": c11.Main,
 	"C10": c10.Main,
 	"C18": c10.Main18,
+	"C13": c13.Main,
 	"C15": c15.Main,
 	"C19": c19.Main,
 	"C16": c16.Main,
